@@ -7,6 +7,20 @@ BASE_NOTE = ("Trusted: Lean 4.33.0 kernel (axioms propext, Classical.choice, Quo
              "tied to /repo's working tree by running both on the same inputs on every run.")
 
 CHECKS = {
+    "C10": {
+        "category": "proof",
+        "text": "Lean theorems about Model/Segment.lean (the split_at_splitters_with_size / split_at_splitters loop over an "
+                "abstract k-mer window and an arbitrary splitter predicate) for every contig, every k >= 1 and every splitter "
+                "set: tiling with exact k-symbol overlaps, reassembly, later segments >= k (>= 2k for non-final ones of "
+                "split_at_splitters_with_size), boundary k-mers recorded as back/front, members of the splitter set and equal "
+                "to the window tracker's value at the boundary, first front / last back missing, single segment without "
+                "splitter occurrence or below k; the model is executed against the real functions on all contigs over "
+                "{A,C,N} up to length 9 (10 thorough) with k<=4 and all (capped) splitter subsets and on random contigs up to "
+                "3000 symbols for k 1..32; the property is also evaluated directly on the real output with a from-scratch "
+                "canonical k-mer.",
+        "design_ref": "DESIGN.md §5 C10",
+        "technique": "Lean 4 proof over a list model with an abstract window tracker + exhaustive/random correspondence",
+    },
     "C20": {
         "category": "proof",
         "text": "Lean theorems about Model/Kmer.lean (UInt64 shifts/masks exactly as kmer.rs) for all k in 1..32 and all "
